@@ -100,6 +100,17 @@ CHECKS = {
          '(vs one-way matching; no bindings left); every result is compared with the model.',
     note='Trusted: the Python term model. Attributed variables are not generated (C26). arg/3 with an unbound index raises '
          'instantiation_error in this system (ISO 8.5.2.3 a), so no enumeration mode is asserted.'),
+ 'C20': dict(
+    level='exploration',
+    technique='runtime monitoring: differential oracle between storage layouts of the same char list, plus obvious reference values',
+    text='Texts with lengths around the 8-byte cell and sentinel boundaries (ASCII, 2-4 byte characters straddling cells, NUL '
+         'characters) are built in 8 storage layouts (string literal, consed at run time, atom_chars, partial_string/3, appended '
+         'segments, findall copy, database round trip, variables bound later) and ~30 operations (=, ==, compare/3, @<, length, '
+         'append modes, nth0, reverse, arg/functor/=.., copy_term, sort, atom conversions, ground, term_variables, writeq, '
+         'unification against partial lists at split points) are applied to each; every layout must behave like the literal and '
+         'give the known value. A crash of the engine while running an operation is a refuting event.',
+    note='double_quotes=chars only. K27 (unification of a cons+string list with a long partial string) and K28 (SIGSEGV in '
+         'compare/3 on the same layout) are KNOWN-FINDINGs.'),
 }
 
 NOT_APPLICABLE_REASON_UNBUILT = ('check designed in DESIGN.md but not built/validated yet in this session; '
